@@ -279,3 +279,174 @@ Proof.
                                             | apply emits_opt_loc | reflexivity ] | apply emits_suffix | ].
     rewrite <- !app_assoc; reflexivity.
 Qed.
+
+(* ---------------------------------------------------------------- token lists *)
+Notation body := (body_comments false emits_import_arg_trivia).
+Notation blockc := (block_comments false emits_import_arg_trivia).
+
+Definition ok_tok (t : token) : Prop := any_tok (existsb is_expression_token) else_without_tag t = false.
+Definition ok_block (b : block) : Prop := any_block (existsb is_expression_token) else_without_tag b = false.
+
+Definition veof_comments (veof : option (option (list trivia))) : list text :=
+  match veof with Some tr => otrivia_comments tr | None => [] end.
+
+(* what the loop emits: every token's body, each followed by the leading trivia of the next token *)
+Fixpoint tail_comments (veof : option (option (list trivia))) (ts : list token) : list text :=
+  match ts with
+  | [] => []
+  | t :: r => body t ++ match r with n :: _ => lead_comments n | [] => veof_comments veof end ++ tail_comments veof r
+  end.
+
+Lemma emits_newline_before : forall prev t, emits (newline_before prev t) [].
+Proof.
+  intros prev t. apply same_emits. intros st. unfold newline_before.
+  destruct prev as [p|]; [|reflexivity].
+  assert (H : forall s, st_comments (push [NL] s) = st_comments s).
+  { intros s. unfold push. rewrite push_type_comments. apply app_nil_r. }
+  destruct (kind_of t); try reflexivity;
+    repeat match goal with |- context [if ?c then _ else _] => destruct c end; rewrite ?H; reflexivity.
+Qed.
+
+Lemma lead_not_expression : forall t, is_expression_token t = false -> lead_comments t = otrivia_comments (token_trivia t).
+Proof. intros t H; destruct t; try reflexivity; discriminate. Qed.
+
+Lemma emits_loop : forall ft veof ts prev,
+  (forall t, In t ts -> emits (ft t) (body t)) ->
+  existsb is_expression_token ts = false ->
+  emits (format_tokens_loop ft veof prev ts) (tail_comments veof ts).
+Proof.
+  intros ft veof ts. induction ts as [|t rest IH]; intros prev Hft Hex.
+  - cbn [format_tokens_loop tail_comments]. destruct veof as [tr|]; [apply emits_newline_before | apply emits_id].
+  - cbn [existsb] in Hex. apply orb_false_elim in Hex as [Ht Hrest].
+    cbn [format_tokens_loop tail_comments].
+    eapply emits_ext with (g := fun st => format_tokens_loop ft veof (Some t) rest
+        ((fun s => match rest with
+                   | n :: _ => fmt_otrivia (token_trivia n) s
+                   | [] => match veof with Some tr => fmt_otrivia tr s | None => s end
+                   end) (ft t (newline_before prev t st)))); [reflexivity|].
+    eapply emits_comp; [ eapply emits_comp; [ eapply emits_comp; [apply emits_newline_before | apply Hft; left; reflexivity | reflexivity] | | reflexivity ]
+                       | apply IH; [intros; apply Hft; right; assumption | assumption] | ].
+    + destruct rest as [|n rest'].
+      * destruct veof as [tr|]; [apply emits_otrivia | apply emits_id].
+      * cbn [existsb] in Hrest. apply orb_false_elim in Hrest as [Hn _].
+        rewrite (lead_not_expression n Hn). apply emits_otrivia.
+    + cbn [app]. rewrite <- !app_assoc. reflexivity.
+Qed.
+
+Lemma nows_chunk_comments_drop : forall l,
+  nows (concat (chunk_comments (drop_nl_chunks l))) = nows (concat (chunk_comments l)).
+Proof.
+  induction l as [|c r IH]; [reflexivity|]. cbn [drop_nl_chunks].
+  destruct (is_nl_chunk c) eqn:E; [|reflexivity].
+  rewrite IH. unfold chunk_comments at 2. cbn [filter]. destruct (is_comment_chunk c); [|reflexivity].
+  cbn [map concat]. rewrite nows_app. unfold is_nl_chunk in E. rewrite (nows_single_nl _ E). reflexivity.
+Qed.
+
+(* dropping newline chunks at the END of the oldest-first list *)
+Lemma nows_chunk_comments_drop_rev : forall l,
+  nows (concat (chunk_comments (rev (drop_nl_chunks l)))) = nows (concat (chunk_comments (rev l))).
+Proof.
+  induction l as [|c r IH]; [reflexivity|]. cbn [drop_nl_chunks].
+  destruct (is_nl_chunk c) eqn:E; [|reflexivity].
+  rewrite IH. cbn [rev]. rewrite chunk_comments_app, concat_app, nows_app.
+  unfold chunk_comments at 3. cbn [filter]. destruct (is_comment_chunk c); cbn [map concat]; rewrite ?app_nil_r; [|reflexivity].
+  unfold is_nl_chunk in E. rewrite (nows_single_nl _ E), app_nil_r. reflexivity.
+Qed.
+
+Lemma tokens_comments_tail : forall veof ts,
+  existsb is_expression_token ts = false ->
+  match ts with
+  | t :: _ => otrivia_comments (token_trivia t)
+  | [] => veof_comments veof
+  end ++ tail_comments veof ts = tokens_comments false emits_import_arg_trivia ts ++ veof_comments veof.
+Proof.
+  intros veof ts. induction ts as [|t rest IH]; intros Hex.
+  - cbn. rewrite app_nil_r. reflexivity.
+  - cbn [existsb] in Hex. apply orb_false_elim in Hex as [Ht Hrest]. specialize (IH Hrest).
+    unfold tokens_comments in *. cbn [flat_map tail_comments]. rewrite <- (lead_not_expression t Ht).
+    rewrite <- !app_assoc. f_equal. f_equal.
+    destruct rest as [|n rest'].
+    + cbn in *. rewrite app_nil_r. reflexivity.
+    + cbn [existsb] in Hrest. apply orb_false_elim in Hrest as [Hn _].
+      rewrite <- (lead_not_expression n Hn) in IH. exact IH.
+Qed.
+
+Lemma emits_tokens_with : forall ft veof ts trim,
+  (forall t, In t ts -> emits (ft t) (body t)) ->
+  existsb is_expression_token ts = false ->
+  emits (format_tokens_with ft veof ts trim) (tokens_comments false emits_import_arg_trivia ts ++ veof_comments veof).
+Proof.
+  intros ft veof ts trim Hft Hex.
+  rewrite <- (tokens_comments_tail veof ts Hex).
+  unfold format_tokens_with.
+  set (first_trivia := match ts with t :: _ => token_trivia t | [] => match veof with Some tr => tr | None => None end end).
+  assert (Hfirst : match ts with t :: _ => otrivia_comments (token_trivia t) | [] => veof_comments veof end = otrivia_comments first_trivia).
+  { subst first_trivia. destruct ts; [destruct veof as [[?|]|]|]; reflexivity. }
+  rewrite Hfirst.
+  eapply emits_comp; [ | apply (emits_loop ft veof ts None Hft Hex) | reflexivity ].
+  intros st. cbv zeta.
+  set (sub := fmt_otrivia first_trivia (mkF [] (f_spc st) (f_indent st))).
+  pose proof (emits_otrivia first_trivia (mkF [] (f_spc st) (f_indent st))) as Hsub. fold sub in Hsub.
+  unfold cnows at 2 in Hsub. unfold st_comments at 2 in Hsub. cbn [f_chunks rev chunk_comments filter map concat] in Hsub.
+  cbn [nows filter app] in Hsub.
+  unfold cnows, st_comments. cbn [f_chunks].
+  rewrite rev_app_distr, rev_involutive, chunk_comments_app, concat_app, nows_app. f_equal.
+  rewrite <- Hsub. unfold cnows, st_comments.
+  destruct trim; [apply nows_chunk_comments_drop | reflexivity].
+Qed.
+
+(* ---------------------------------------------------------------- format_token / format_block *)
+Lemma go_flat_map : forall ts,
+  (fix go (ts : list token) : list text :=
+     match ts with [] => [] | t :: r => lead_comments t ++ body t ++ go r end) ts =
+  tokens_comments false emits_import_arg_trivia ts.
+Proof.
+  induction ts as [|t r IH]; [reflexivity|]. unfold tokens_comments in *. cbn [flat_map]. rewrite <- IH, <- app_assoc. reflexivity.
+Qed.
+
+Lemma emits_set_indent : forall (k : fstate -> nat), emits (fun st => mkF (f_chunks st) (f_spc st) (k st)) [].
+Proof. intros k. apply same_emits. intros st. reflexivity. Qed.
+
+Lemma emits_drop_nl : emits (fun st => mkF (drop_nl_chunks (f_chunks st)) (f_spc st) (f_indent st)) [].
+Proof.
+  intros st. unfold cnows, st_comments. cbn [f_chunks]. rewrite nows_chunk_comments_drop_rev.
+  unfold tnows; cbn; rewrite app_nil_r; reflexivity.
+Qed.
+
+Lemma ok_block_inv : forall lp inner rp, ok_block (mkBlock lp inner rp) ->
+  existsb is_expression_token inner = false /\ forall t, In t inner -> ok_tok t.
+Proof.
+  intros lp inner rp H. unfold ok_block in H. cbn [any_block] in H. apply orb_false_elim in H as [H1 H2].
+  split; [assumption|]. clear H1. induction inner as [|a r IH]; intros t Hin; [destruct Hin|].
+  apply orb_false_elim in H2 as [Ha Hr]. destruct Hin as [<-|Hin]; [exact Ha | apply IH; assumption].
+Qed.
+
+Lemma emits_block_of_tokens : forall o lp inner rp,
+  (forall t, In t inner -> emits (format_token o t) (body t)) ->
+  existsb is_expression_token inner = false ->
+  emits (format_block o (mkBlock lp inner rp)) (blockc (mkBlock lp inner rp)).
+Proof.
+  intros o lp inner rp Hft Hex. cbn [format_block block_comments].
+  rewrite go_flat_map.
+  pose proof (emits_tokens_with (format_token o) (Some (l_trivia rp)) inner true Hft Hex) as Hts.
+  cbn [veof_comments] in Hts. fold (lt_comments rp) in Hts.
+  eapply emits_ext with (g := fun st =>
+     push (l_data rp) (push [NL]
+       ((fun s => mkF (drop_nl_chunks (f_chunks s)) (f_spc s) (f_indent s))
+         ((fun s => mkF (f_chunks s) (f_spc s) (f_indent s - o_indent o))
+           (format_tokens_with (format_token o) (Some (l_trivia rp)) inner true
+             ((fun s => mkF (f_chunks s) (f_spc s) (f_indent s + o_indent o))
+               ((fun s => match o_braces o with
+                          | SameLine => push [NL] (push (l_data lp) s)
+                          | NewLine => push [NL] (push (l_data lp) (push [NL] s))
+                          end) st))))))); [reflexivity|].
+  eapply emits_comp; [ eapply emits_comp; [ eapply emits_comp; [ eapply emits_comp; [ eapply emits_comp; [ eapply emits_comp;
+      [ | apply (emits_set_indent (fun s => f_indent s + o_indent o)) | reflexivity ]
+      | exact Hts | reflexivity ]
+      | apply (emits_set_indent (fun s => f_indent s - o_indent o)) | reflexivity ]
+      | apply emits_drop_nl | reflexivity ]
+      | apply emits_push | reflexivity ]
+      | apply emits_push | ].
+  - destruct (o_braces o); repeat emits_step; reflexivity.
+  - cbn [app]. rewrite !app_nil_r. reflexivity.
+Qed.
